@@ -288,7 +288,7 @@ def decide(prop, tier, seed, t0):
         extra_evals += e
         extra_fails += f
     run_info = None
-    if prop in ("C01", "C02", "C05", "C06", "C07"):
+    if prop in ("C01", "C02", "C05", "C06", "C07", "C08"):
         # Layer B: compiled differential clients (direct call vs generated trait call; traces and results)
         rp = run_probe.run_probe(seed, tier)
         mine = [(int(cid), v) for cid, v in rp["results"].items() if v["prop"] == prop]
